@@ -107,6 +107,10 @@ class Harness:
         self.interp.yield_handler = self.on_yield
         try:
             v = self.interp.call_repo_function(fn, args, kwargs, force_body=True)
+            from .values import GenObj
+            if isinstance(v, GenObj):
+                # a plain function that returns another sequence's generator object
+                v = self.interp.run_generator_inline(v)
             return ("return", v)
         except RaiseEx as e:
             return ("raise", e.cls, e.value, e.where)
